@@ -68,9 +68,10 @@ func crashSpec(r *rng.R, config string, thorough bool) *crSpec {
 }
 
 func runC04(c *Ctx) {
-	c.Res.Rule = "marker-key workloads (100-200 batches; a batch = head marker, 0-4 puts/deletes over 30 keys, tail marker; sync on 1/3) on tiny buffers over the configurations plain / tiny manifest limit / large-batch transactions / explicit transactions committed+discarded / CompactRange / mixed / bigmanifest (150-byte keys, 1 KiB write buffer, no table compaction, 600-700 batches all written with Sync: the manifest passes 32 KiB without rotating; images at every mutating operation while its length is within 400 bytes of a 32 KiB multiple, with the manifest cut at an arbitrary byte of its unsynced tail); in the Before hook of every k-th mutating storage operation after Open returned (quick: k=3, 1-3 images, thorough: every operation) 1-8 admissible post-crash images are materialised (synced prefix kept; unsynced tail lost/kept/cut/cut+zeros/cut+garbage per file) and each is reopened: Open succeeds; only issued batches present; every batch acknowledged with Sync and every committed transaction present; contents equal exactly the present batches applied in order (both markers of a batch agree); usability (Put, Write, Get, CompactRange, Close, reopen, compare) on a third; nested images taken during the recovery of an image (1 level, thorough 2) get the same oracles. One evaluation = one reopened image; non-trivial = at least one batch was issued before the crash; distinct by (config, workload seed, crash path = op indices + image seeds). Images are also taken before every mutating operation of the very first Open (the creation window): each must open as an empty, usable DB. Before those: concurrent rounds (3-12 writers of Put/Write/Delete, Sync on a third, a journal slowed by 1-2 ms per operation so that writers are merged into groups): images taken while the writers run and at the end must contain every write acknowledged with Sync before the image was taken." + " First of all: " + fsmRule + " Then Batch.Load/Dump/Replay on dumps of random batches and their mutations (truncation, bit flips, insertions, length varints of 2^32..2^64-1): never a panic; an accepted Load replays what the Lean decoder decodes and dumps its input; a rejected Load leaves an empty, usable batch."
+	c.Res.Rule = "marker-key workloads (100-200 batches; a batch = head marker, 0-4 puts/deletes over 30 keys, tail marker; sync on 1/3) on tiny buffers over the configurations plain / tiny manifest limit / large-batch transactions / explicit transactions committed+discarded / CompactRange / mixed / bigmanifest (150-byte keys, 1 KiB write buffer, no table compaction, 600-700 batches all written with Sync: the manifest passes 32 KiB without rotating; images at every mutating operation while its length is within 400 bytes of a 32 KiB multiple, with the manifest cut at an arbitrary byte of its unsynced tail); in the Before hook of every k-th mutating storage operation after Open returned (quick: k=3, 1-3 images, thorough: every operation) 1-8 admissible post-crash images are materialised (synced prefix kept; unsynced tail lost/kept/cut/cut+zeros/cut+garbage per file) and each is reopened: Open succeeds; only issued batches present; every batch acknowledged with Sync and every committed transaction present; contents equal exactly the present batches applied in order (both markers of a batch agree); usability (Put, Write, Get, CompactRange, Close, reopen, compare) on a third; nested images taken during the recovery of an image (1 level, thorough 2) get the same oracles. One evaluation = one reopened image; non-trivial = at least one batch was issued before the crash; distinct by (config, workload seed, crash path = op indices + image seeds). Images are also taken before every mutating operation of the very first Open (the creation window): each must open as an empty, usable DB. Before those: concurrent rounds (3-12 writers of Put/Write/Delete, Sync on a third, a journal slowed by 1-2 ms per operation so that writers are merged into groups): images taken while the writers run and at the end must contain every write acknowledged with Sync before the image was taken." + " First of all: " + fsmRule + " Then Batch.Load/Dump/Replay on dumps of random batches and their mutations (truncation, bit flips, insertions, length varints of 2^32..2^64-1): never a panic; an accepted Load replays what the Lean decoder decodes and dumps its input; a rejected Load leaves an empty, usable batch. Then, on the real file storage: the directory left by a process that died inside SetMeta while opening the DB (copied at a hooked system call) is opened with OpenFile, written to with Sync, closed and reopened: it must open and show everything."
 	c04FileStorageMeta(c, c.Scale(250, 4000))
 	c04BatchCodec(c, c.Scale(3000, 60000))
+	c04FileStorageDeath(c, c.Scale(12, 200))
 	if len(c.Res.Violations) > 0 {
 		return
 	}
